@@ -7,7 +7,8 @@
 //   p<k>  pool.schedulePlaced(task, Force)    P<n>  pool.scheduleBulkPlaced(n, gen)      (friend-only API: steal rings)
 //   r<n>  pool.resize(n)                      q     wait for quiescence (snapshot)
 // After its program producer 0 waits for the other producers, waits for quiescence (snapshot), disposes of the task sets
-// (a set whose outstanding count is not zero at quiescence is reported as "wait would hang" and leaked) and destroys the pool.
+// (a set with outstanding tasks while a ring beyond numRings_ is non-empty is reported as "wait would hang" and leaked; every other
+// set is destroyed, i.e. really waited for) and destroys the pool.
 // Output (one line):
 //   events t:name:a:b ... | counts c0 c1 ... | snaps <Q|F>pos:wr:nthreads:nrings:nsteal:central:r0,r1,..:s0,s1,.. ... | ts hang=<n> |
 //   n0 <n0> caps <ring cap> <steal cap> <sharing> timeouts <k> steps <k> | status S
@@ -139,10 +140,16 @@ static void runProg(size_t me, const std::vector<Op>& prog, size_t nprod, const 
     return true;
   }, "producers.joined");
   S->waitQuiescent();
+  // TaskSet::wait polls the central queue and rings [0, numRings_) itself: it returns iff none of the set's tasks sits elsewhere.
+  // Only then is the set destroyed for real (its destructor waits); otherwise wait() would spin forever: count it and leak the set.
   int hang = 0;
   for (size_t i = 0; i < nprod; ++i) {
     if (!g_sets[i]) continue;
-    if (g_sets[i]->outstandingTaskCount_.load() != 0) ++hang;   // wait() would spin forever: leak the set
+    bool unpolled = false;
+    size_t nr = g_pool->numRings_.load();
+    for (size_t r = nr; r < g_pool->rings_.size(); ++r)
+      if (g_pool->rings_[r].size() != 0) unpolled = true;
+    if (g_sets[i]->outstandingTaskCount_.load() != 0 && unpolled) ++hang;
     else delete g_sets[i];
   }
   g_snaps.push_back("hang=" + std::to_string(hang));
